@@ -97,6 +97,22 @@ CHECKS = {
             rapid("cli", "TestC05CLI", {"checks": 200, "shards": 6, "shrinktime": "10s"}, {"checks": 2500, "shards": 16, "timeout": 6000}),
         ],
     },
+    "C07": {
+        "technique": "rapid random generation biased to multi-hunk diffs + exhaustive small array pairs, oracle = per-hunk invariants over the replayed history and leave-one-out metamorphic check",
+        "level_text": "Each hunk of a generated diff is replayed on the running document by the reference interpreter: removed values must be at the "
+                      "addressed location, added values must be at the addressed location of b, removed and added collections must differ, "
+                      "merge hunks must change the value they write; then every leave-one-out sub-diff is applied with jd and must not reproduce b. "
+                      "All pairs of scalar arrays up to length 4 (thorough 5) are enumerated in list mode.",
+        "level_note": "Leave-one-out uses jd's own Patch and Equals; an error or panic of the shortened diff counts as 'does not reproduce b'. "
+                      "Precision is not part of this property's configurations.",
+        "rule": "(a, b) with b = 2-6 edits of a (88%) or independent, keyed-set pairs for setkeys, under list, set, mset, setkeys:id, merge (null-free); "
+                "exhaustive: all ordered pairs of arrays over 3 symbols up to length 4. Non-trivial: the diff has >= 2 hunks (leave-one-out has content); distinct by (a, b, options).",
+        "assumptions": ["the reference interpreter gives the meaning of a hunk (ref/hunk.go)"],
+        "legs": [
+            enum("exhaustive", "TestC07Exhaustive", {"shards": 4}, {"shards": 16, "timeout": 6000}),
+            rapid("random", "TestC07Random", {"checks": 12000, "shards": 4}, {"checks": 150000, "shards": 16, "timeout": 6000}),
+        ],
+    },
     "C06": {
         "technique": "exhaustive enumeration of small array pairs + rapid random generation, oracle = independent LCS optimum and reference hunk interpreter",
         "level_text": "Every ordered pair of arrays over a small alphabet up to a length bound is enumerated (complete for that universe) and "
